@@ -48,18 +48,21 @@ RULE = ("every case is evaluated inside a constexpr table (constant evaluator) a
         "(0, 1, 2^k, 2^k +- 1, limits) and seeded random values for 16/32/64 bit; byteswap and its fallback on those; C-string "
         "functions: every pair of strings of length <= 2 over {a, b, 0x80, 0xff} (strncmp with every n <= 3, strchr with every "
         "unit and 0, 256+unit, negative int) plus random longer ones; cmath (floor ceil trunc round rint lrint llrint signbit "
-        "isnan isinf isfinite bit_cast, binary32 and binary64): boundary table of bit patterns (+-0, smallest/largest "
+        "isnan isinf isfinite bit_cast sqrt, binary32 and binary64): boundary table of bit patterns (+-0, smallest/largest "
         "subnormals, every 2^k and 2^k +- 1ulp, n + 1/2 and its neighbours for n <= 64, halves and integers around 2^23/2^24/"
         "2^31/2^32/2^52/2^53/2^63/2^64, +-inf, quiet/signalling/negative NaNs, limits, seeded random patterns): ~1500 patterns "
         "per type quick, ~4000 thorough; copysign on a grid of those; fma on double-rounding witnesses (1+a ulp)(1+b ulp) - "
-        "RN(product), exact products, cancellations and random triples. Non-trivial: the specification is defined for the "
+        "RN(product), exact products, cancellations, FLT_MAX*2-FLT_MAX-like triples whose two-step product overflows, 1500 "
+        "(thorough 3600) triples with a product in the subnormal range x tiny addends (folded and unfolded by GCC), "
+        "overflowing products with infinite/NaN addends, random triples; rows whose fused result is undefined or overflows "
+        "(outside the domain, masked) only in the thorough tier plus 6 tagged rows. Non-trivial: the specification is defined for the "
         "input and the result differs from the (first) argument; distinct = distinct case text.")
 ASSUMPTIONS = ["libstdc++ 12 / glibc 2.36 at run time validate the Lean specifications (R2)",
                "a compiler builtin on a path is modelled by its specification (trusted, observed on every case)",
                "GCC's constant evaluator is observed, not modelled: `constant evaluation succeeds on the documented domain` and "
                "`the evaluator computes what the abstract machine computes` hold on the explored cases only"]
 TRUSTED = ["extractor gen/dispatch.py (regex + brace matching over the headers); every builtin call it cannot attribute is an error",
-           "hand models Tetl/C13/Model.lean (gcem floor/ceil/trunc/round, rint/lrint/copysign fallbacks, two-step fma), "
+           "hand models Tetl/C13/Model.lean (gcem floor/ceil/trunc/round, rint/lrint/copysign fallbacks, fold-or-two-step fma, sqrt ladder), "
            "Tetl/C14/Model.lean, Tetl/C18/Model.lean tied to the source by the correspondence run (R1) on every run",
            "bit-level float specification Tetl/C13/Float.lean validated against glibc on every case (R2)",
            "g++ 12 front end (constant evaluator) and code generator at -O0/-O1/-O2"]
@@ -73,11 +76,17 @@ UNPROVED_OBSERVED = [
     "the clang branch of the `#if defined(__clang__)` dispatch in the cstring headers (__builtin_strlen ...) is inventoried "
     "and bound to the same specification, but this toolchain compiles the other branch",
     "long double overloads (x87 80-bit format) are not modelled",
-    "fmod, remainder, sqrt (two paths since the C16 fixes: libm builtin at run time, gcem in constant evaluation) are inventoried "
-    "and bound to their specification by the dispatch theorems, but have no rows in C13's compile-time tables: both paths are "
-    "evaluated on the same inputs by property C16 (ops b/cb fmod, remainder; a/ca sqrt). The constant-evaluated fmod/remainder "
-    "(gcem x - trunc(x/y)*y) is known to differ from the run-time path: finding F-C16-gcem-fmod-constexpr, listed in "
-    "Tetl.C13.Props.dispatch_divergent_are_known",
+    "fmod, remainder (the libm builtin on both paths under GCC since 67c4687 / f0dd916; constant evaluation runs a ladder of "
+    "special values first) are inventoried and bound to their specification by the dispatch theorems "
+    "(dispatch_ct_builtin), but have no rows in C13's compile-time tables: both paths are evaluated on every pair of the "
+    "special-value table harness/c16_ctab.inc by property C16 (ops b/cb fmod, remainder), which also owns their specification",
+    "which calls of __builtin_fma / __builtin_sqrt GCC folds in a constant expression (Tetl.C13.Model.gccFoldsFma, "
+    "`representable`: finite arguments and a result that is a value of the type after one rounding; sqrt: finite, not "
+    "negative) is a model of the compiler read off gcc/fold-const-call.cc, observed on every fma and sqrt row of the run "
+    "(a wrong guess shows as impl != model or as a row that does not constant-evaluate), not proved",
+    "the approximating functions that became two-path with the C16 review fixes (sinh, cosh, tgamma, lgamma, erf, log1p, atanh, "
+    "atan2: libm builtin at run time, gcem in constant evaluation) are inventoried and bound (`approx`); they have no "
+    "exactly specified result and are outside the statement (property C16, tolerant part)",
 ]
 SEARCH_CAP = 10 ** 9
 
@@ -734,9 +743,12 @@ TECHNIQUE = ("Lean 4 proof that tetl's own code on one path equals the specifica
              "(constant evaluator / run time at -O0, -O2, sanitized / Lean) ties both paths to the specification")
 LEVEL_TEXT = ("Every function with a compile-time/run-time switch (is_constant_evaluated, __has_builtin, compiler test) is extracted from "
               "the current headers into a Lean table on every run; Lean re-checks that each entry's builtins and callees are bound to "
-              "one specification and that fma is the only live pair known to differ. For popcount, byteswap (16 bit), add_sat, the "
-              "C-string functions, copysign, signbit, isnan and the constant-evaluated gcem floor/ceil/trunc/round (modelled operation by "
-              "operation with IEEE roundings) the model of tetl's own code on one path is proved, for all inputs and every "
+              "one specification, that fmod, remainder and sqrt run the same builtin on both paths under GCC, and that fma (on the "
+              "arguments for which GCC does not fold the builtin) is the only live pair known to differ. For popcount, byteswap "
+              "(16 bit), add_sat, the C-string functions (re-exports of the theorems of C14/C18), copysign, signbit (4/8-byte "
+              "types), isnan, the special-value ladder of the constant-evaluated sqrt, the constant-evaluated fma outside the "
+              "known class (every format, NaN/inf included) and the constant-evaluated gcem floor/ceil/trunc/round (modelled "
+              "operation by operation with IEEE roundings) the model of tetl's own code on one path is proved, for all inputs and every "
               "width/format, to return without undefined behaviour exactly the value specified for the builtin on the other path; for "
               "rint_fallback it is proved that no argument reaches an out-of-range integer conversion (the "
               "model-level face of `constant evaluation succeeds on the whole domain`). Both paths of every operation are then evaluated "
@@ -746,15 +758,20 @@ LEVEL_TEXT = ("Every function with a compile-time/run-time switch (is_constant_e
 LEVEL_NOTE = ("Partial by design (DESIGN §6): that GCC's constant evaluator and code generator implement the abstract machine, and that "
               "builtins implement their specification, is trusted and observed on the explored inputs only (coverage.unproved_observed). "
               "The rint/lrint fallbacks are modelled and compared on every run but have no value theorem yet "
-              "(coverage.correspondence_only). fmod, remainder and sqrt are two-path since the C16 fixes: inventoried and bound here, "
-              "evaluated on both paths by property C16 (fmod/remainder in constant evaluation: known finding F-C16-gcem-fmod-constexpr). Approximating cmath functions are inventoried but have no exactly specified result and "
+              "(coverage.correspondence_only). fmod and remainder are inventoried and bound here and evaluated on both paths by "
+              "property C16; sqrt (correctly rounded, hence exact) has its own specification FSpec.sqrt, rows and ladder theorem "
+              "here. Known finding: fma for the arguments GCC does not fold (F-c13-fma-constexpr-unfolded: class defined on the "
+              "arguments, partial theorem + two counterexamples). Approximating cmath functions are inventoried but have no exactly specified result and "
               "are outside the statement. Trusted: Lean kernel + propext/Classical.choice/Quot.sound, gen/dispatch.py, g++ 12, glibc "
               "as oracle for the specification.")
 CORRESPONDENCE_ONLY = [
     "rint_fallback (Model.rintFallback): value by correspondence; totality proved (rintFallback_total)",
     "lrint_fallback / llrint (Model.lrintFallback): correspondence only, on the domain where the result is representable",
-    "fma: two-step constant-evaluated path (Model.fmaTwoStep) vs fused specification (Fmt.fma): known finding "
-    "F-c13-fma-constexpr-double-rounding; partial theorem with the class as hypothesis + counterexample",
+    "fma: constant-evaluated path Model.fmaCt = fused where GCC folds the builtin, two-step x*y+z elsewhere; proved equal to the "
+    "fused specification outside the argument class FmaResidual (fma_paths_partial); inside it: known finding "
+    "F-c13-fma-constexpr-unfolded (two counterexample theorems), compared on every row",
+    "sqrt: FSpec.sqrt (integer square root + sticky bit, rounded by roundUnits) is validated against glibc on every row (R2), not "
+    "proved against a real-number semantics; the ladder in front of the builtin is proved (sqrt_paths)",
     "byteswap_fallback for uint32_t / uint64_t (C14 model bswap32/bswap64): correspondence only (16 bit proved: byteswap_paths)",
     "signbit, isinf, isfinite, bit_cast, byteswap, add_sat (builtin on both paths): compared with the specification on every case",
     "cctype functions (single path): C18 model and specification, all 257 arguments in constant evaluation and at run time",
